@@ -2,9 +2,9 @@
    This file holds ONLY the property theorems (each closed by `exact <lemma>`) and their Print Assumptions. *)
 From Coq Require Import ZArith List Bool Permutation.
 From Verif Require Import Containers.BitVecModel Containers.BitVecProofs Containers.ArenaModel Containers.ArenaProofs
-  Containers.VecModel Containers.VecProofs Containers.WorldProofs Containers.World2Proofs Containers.HashModel Containers.HashProofs Containers.StrModel Containers.StrProofs
+  Containers.VecModel Containers.VecProofs Containers.WorldProofs Containers.World2Proofs Containers.HashModel Containers.HashProofs Containers.NameHashModel Containers.NameHashProofs Containers.StrModel Containers.StrProofs
   Containers.TreeModel Containers.TreeProofs Containers.TreeGeneral Containers.TreeRotate Containers.TreeRecolor Containers.TreeLink Containers.TreeInsertAbs Containers.TreeInsertRefine Containers.TreeRemoveAbs Containers.TreeRemoveRefine Containers.ArenaChainModel Containers.ArenaChainProofs Containers.ArenaChainGeneral
-  Containers.ListModel Containers.ListProofs Containers.BitSetModel Containers.BitSetProofs Containers.RangeIterModel Containers.RangeIterProofs.
+  Containers.ListModel Containers.ListProofs Containers.ListGeneral Containers.BitSetModel Containers.BitSetProofs Containers.BitSetWords Containers.RangeIterModel Containers.RangeIterProofs Containers.RangeIterGeneral.
 From VerifGen Require Import C18HashTable C18VecTable.
 Import ListNotations.
 Local Open Scope Z_scope.
@@ -260,6 +260,29 @@ Theorem C18_hash_get_refines : forall h hc key, hash_inv h -> 0 <= hc < 2 ^ 32 -
 Proof. exact hash_get_refines. Qed.
 Print Assumptions C18_hash_get_refines.
 
+(* ArenaHash with NAME keys (CodeHolder's named labels): Support::hash_string is the Horner polynomial in 65599 modulo 2^32,
+   names are identified by their key, and a table whose nodes carry hash_name(name) finds a node by name exactly when a node with
+   that name is stored — whatever collisions the hash has (two 6-letter names with equal hash are exhibited) *)
+Theorem C18_name_hash_value : forall l, 0 <= hash_name l < 2 ^ 32 /\ hash_name l = poly l 0 mod 2 ^ 32.
+Proof. exact (fun l => conj (hash_name_range l) (hash_name_poly l)). Qed.
+Print Assumptions C18_name_hash_value.
+
+Theorem C18_name_key_injective : forall l1 l2, bytes_ok l1 -> bytes_ok l2 -> name_key l1 = name_key l2 -> l1 = l2.
+Proof. exact name_key_inj. Qed.
+Print Assumptions C18_name_key_injective.
+
+Theorem C18_name_get_correct : forall h bytes, hash_inv h -> named_table h -> bytes_ok bytes ->
+  match name_get h bytes with
+  | Some n => In n (hash_abs h) /\ hn_hash n = hash_name bytes /\ hn_key n = name_key bytes
+  | None => forall n, In n (hash_abs h) -> hn_key n <> name_key bytes
+  end.
+Proof. exact name_get_correct. Qed.
+Print Assumptions C18_name_get_correct.
+
+Theorem C18_name_hash_collision : hash_name name_a = 677318532 /\ hash_name name_b = 677318532 /\ name_key name_a <> name_key name_b.
+Proof. exact name_hash_collision. Qed.
+Print Assumptions C18_name_hash_collision.
+
 (* any rehash (any row that satisfies the criterion): nothing lost, nothing duplicated, every node reachable from its bucket *)
 Theorem C18_hash_rehash_refines : forall primes mok a h pidx, forallb row_ok primes = true -> hash_inv h ->
   hash_inv (snd (hash_rehash primes mok a h pidx)) /\ Permutation (hash_abs (snd (hash_rehash primes mok a h pidx))) (hash_abs h).
@@ -321,6 +344,38 @@ Theorem C18_list_small_scope : forall ops, (length ops <= 5)%nat -> Forall (fun 
 Proof. exact list_small_scope. Qed.
 Print Assumptions C18_list_small_scope.
 
+(* ArenaList, lists of ANY length: the node heap with first/last represents a list of distinct non-null node ids (drep: every
+   node's prev/next are its neighbours, null at the ends); append / prepend / insert_after / insert_before / unlink /
+   pop_first / pop are the textbook operations and the walks in both directions read the list back. The direction-generic C++
+   (_list_nodes[dir]) is covered by a mirror symmetry: swapping prev/next and first/last reverses the represented list *)
+Theorem C18_list_append : forall d l node, drep d l -> node <> 0 -> ~ In node l -> drep (dl_add d node true) (l ++ [node]).
+Proof. exact dl_append_sound. Qed.
+Print Assumptions C18_list_append.
+Theorem C18_list_prepend : forall d l node, drep d l -> node <> 0 -> ~ In node l -> drep (dl_add d node false) (node :: l).
+Proof. exact dl_prepend_sound. Qed.
+Print Assumptions C18_list_prepend.
+Theorem C18_list_insert_after : forall d l1 ref l2 node, drep d (l1 ++ ref :: l2) -> node <> 0 -> ~ In node (l1 ++ ref :: l2) ->
+  drep (dl_insert d ref node true) (l1 ++ ref :: node :: l2).
+Proof. exact dl_insert_after_sound. Qed.
+Print Assumptions C18_list_insert_after.
+Theorem C18_list_insert_before : forall d l1 ref l2 node, drep d (l1 ++ ref :: l2) -> node <> 0 -> ~ In node (l1 ++ ref :: l2) ->
+  drep (dl_insert d ref node false) (l1 ++ node :: ref :: l2).
+Proof. exact dl_insert_before_sound. Qed.
+Print Assumptions C18_list_insert_before.
+Theorem C18_list_unlink : forall d l1 node l2, drep d (l1 ++ node :: l2) ->
+  drep (dl_unlink d node) (l1 ++ l2) /\ lget (dl_heap (dl_unlink d node)) node = mkln 0 0.
+Proof. exact dl_unlink_sound. Qed.
+Print Assumptions C18_list_unlink.
+Theorem C18_list_pop_first : forall d x r, drep d (x :: r) -> fst (dl_pop_first d) = x /\ drep (snd (dl_pop_first d)) r.
+Proof. exact dl_pop_first_sound. Qed.
+Print Assumptions C18_list_pop_first.
+Theorem C18_list_pop : forall d l x, drep d (l ++ [x]) -> fst (dl_pop d) = x /\ drep (snd (dl_pop d)) l.
+Proof. exact dl_pop_sound. Qed.
+Print Assumptions C18_list_pop.
+Theorem C18_list_walks : forall d l, drep d l -> (length l < 1000)%nat -> dl_forward d = l /\ dl_backward d = rev l.
+Proof. exact dl_walks_sound. Qed.
+Print Assumptions C18_list_walks.
+
 (* ArenaPool: an item comes from the pool (a released, distinct, still live one-shot block) or from the arena *)
 Theorem C18_pool_alloc : forall mok a p item, inv a -> 0 < item <= 2 ^ 32 ->
   let sz := ((item + 7) / 8) * 8 in
@@ -364,6 +419,41 @@ Print Assumptions C18_range_iterator_small_scope.
 Theorem C18_range_iterator_unaligned_end_refuted : ranges W4 true [8] 0 2 100 = [(3, 2)].
 Proof. exact range_iter_unaligned_end_refuted. Qed.
 Print Assumptions C18_range_iterator_unaligned_end_refuted.
+
+(* EVERY word size W > 0, the word-level core of BitVectorRangeIterator::next_range: i = ctz(w) starts the first run of set
+   bits of the iterator word; bw = ~(w ^ ~(ones << i)) is zero exactly when the run reaches the end of the word; otherwise
+   j = ctz(bw) is the first clear bit above i (the run is [i, j)) and the word left in the iterator has exactly the bits of w
+   from j on. (The loops around this step stay small-scope at W = 4 + correspondence at W = 32/64: partial.) *)
+Theorem C18_range_iterator_word_run : forall W w, 0 < W -> word_ok W w -> w <> 0 ->
+  let i := ctz w in
+  let bw := wlnot W (Z.lxor w (wlnot W (shl_ones W i))) in
+  0 <= i < W /\ Z.testbit w i = true /\ (forall k, 0 <= k < i -> Z.testbit w k = false) /\ word_ok W bw /\
+  (bw = 0 <-> forall k, i <= k < W -> Z.testbit w k = true) /\
+  (bw <> 0 ->
+     let j := ctz bw in
+     let w' := wlnot W (Z.lxor bw (wlnot W (shl_ones W j))) in
+     i < j < W /\ (forall k, i <= k < j -> Z.testbit w k = true) /\ Z.testbit w j = false /\ word_ok W w' /\
+     forall k, 0 <= k -> Z.testbit w' k = (j <=? k) && Z.testbit w k).
+Proof. exact range_word_run. Qed.
+Print Assumptions C18_range_iterator_word_run.
+
+(* the word init() starts with: the B-bits of the first word from bit (start mod W) on *)
+Theorem C18_range_iterator_init_word : forall W (b : bool) x s, 0 < W -> word_ok W x -> 0 <= s < W ->
+  let w0 := Z.land (Z.lxor x (xor_mask W b)) (shl_ones W s) in
+  word_ok W w0 /\ forall k, 0 <= k < W -> Z.testbit w0 k = (s <=? k) && Bool.eqb (Z.testbit x k) b.
+Proof. exact range_init_word. Qed.
+Print Assumptions C18_range_iterator_init_word.
+
+(* the loop that skips empty words, every W and vectors of any length: it stops at the first word (from the current one on) whose
+   B-bits are not all consumed; every word passed is empty; the index advances by W per word and stays below `end` *)
+Theorem C18_range_iterator_skip : forall W (b : bool) ws fuel it it', ri_skip fuel W b ws it = Some it' ->
+  ri_word it' <> 0 /\ ri_end it' = ri_end it /\
+  exists k, 0 <= k /\ ri_idx it' = ri_idx it + W * k /\ ri_ptr it' = ri_ptr it + k /\
+    (k = 0 -> it' = it) /\
+    (0 < k -> ri_word it = 0 /\ ri_word it' = mword W b ws (ri_ptr it + k) /\ ri_idx it' < ri_end it) /\
+    (forall j, 0 < j < k -> mword W b ws (ri_ptr it + j) = 0).
+Proof. exact ri_skip_spec. Qed.
+Print Assumptions C18_range_iterator_skip.
 
 (* ================================================================== (6') red-black tree: unbounded semantics of every checked state *)
 (* for a node heap of ANY size: if the state checker (evaluated by the model driver after every operation of the
@@ -434,6 +524,36 @@ Theorem C18_arena_dup : forall mok a data nt, inv a -> 0 < Z.of_nat (length data
   end.
 Proof. exact arena_dup_sound. Qed.
 Print Assumptions C18_arena_dup.
+
+(* Arena::sformat (model = code with fixes/C18-arena-sformat-overflow.patch; the pinned code indexes its 512-byte stack buffer
+   with the length of the COMPLETE output: finding C18/arena/sformat-overflows-stack-buffer): a fresh live block with the first
+   min(length, 510) characters, a terminator and zero padding *)
+Theorem C18_arena_sformat : forall mok a text, inv a ->
+  let r := arena_sformat mok a text in
+  let kept := firstn 510 text in
+  inv (snd r) /\
+  match fst r with
+  | Some (p, bytes) => exists asz, In (p, asz) (live (snd r)) /\ Forall (disjoint (p, asz)) (regions a) /\ a_off p mod 8 = 0 /\
+                         Z.of_nat (length bytes) = asz /\ Z.of_nat (length kept) + 1 <= asz /\ (length kept <= 510)%nat /\
+                         firstn (length kept) bytes = kept /\ Forall (fun b => b = 0) (skipn (length kept) bytes)
+  | None => live (snd r) = live a
+  end.
+Proof. exact arena_sformat_sound. Qed.
+Print Assumptions C18_arena_sformat.
+
+(* ArenaString<N>::set_data *)
+Theorem C18_arena_string_set : forall mok a maxe data, inv a -> 0 <= maxe -> Z.of_nat (length data) < 2 ^ 63 ->
+  let r := arena_string_set mok a maxe data in
+  inv (snd r) /\
+  match fst r with
+  | Some (None, bytes) => Z.of_nat (length data) <= maxe /\ bytes = data ++ [0] /\ snd r = a
+  | Some (Some p, bytes) => maxe < Z.of_nat (length data) /\
+      exists asz, In (p, asz) (live (snd r)) /\ Forall (disjoint (p, asz)) (regions a) /\ Z.of_nat (length bytes) = asz /\
+        Z.of_nat (length data) + 1 <= asz /\ firstn (length data) bytes = data /\ Forall (fun b => b = 0) (skipn (length data) bytes)
+  | None => maxe < Z.of_nat (length data) /\ live (snd r) = live a
+  end.
+Proof. exact arena_string_set_sound. Qed.
+Print Assumptions C18_arena_string_set.
 
 (* ================================================================== ArenaBitSet: growing (second half of _resize) *)
 (* for every old and new size and whatever the uninitialised words hold: every old bit keeps its value, every new bit gets the
@@ -604,6 +724,38 @@ Theorem C18_tree_remove_unbounded : forall t T b node,
 Proof. exact tree_remove_unbounded. Qed.
 Print Assumptions C18_tree_remove_unbounded.
 
+(* NO bound on the height: the loops of the C++ have no fuel; the model's loops take a fuel, and for EVERY tree every fuel above
+   twice its height (+2) gives these statements (tree_insert / tree_remove of the executable model are the instances fuel = 200);
+   the reading loops (get, in-order) likewise agree with the abstract tree for every fuel above the height of the result *)
+Theorem C18_tree_insert_any_height : forall node kn fuel t T b,
+  rep (heap t) (root t) T -> NoDup (bids T) -> (forall i, In i (bids T) -> 1 < i /\ i <> node) -> 1 < node ->
+  bbh T = Some b -> bred T = false -> sortedb (bkeys T) = true -> ~ In kn (bkeys T) -> (2 * bheight T + 1 < fuel)%nat ->
+  let t' := tree_insert_f fuel t node kn in
+  exists R b', rep (heap t') (root t') R /\
+    bred R = false /\ bbh R = Some b' /\ Z.of_nat (bheight R) <= 2 * (b' - 1) /\
+    sortedb (bkeys R) = true /\ (exists L Rr, bkeys T = L ++ Rr /\ bkeys R = L ++ kn :: Rr) /\
+    (forall k, lookup R k <> 0 <-> k = kn \/ In k (bkeys T)) /\
+    (forall f', (bheight R < f')%nat ->
+       (forall k, get_loop f' (heap t') (root t') k = lookup R k) /\ inorder f' (heap t') (root t') = bflat R) /\
+    NoDup (bids R) /\ (forall i, In i (bids R) <-> i = node \/ In i (bids T)).
+Proof. exact tree_insert_any_height. Qed.
+Print Assumptions C18_tree_insert_any_height.
+
+Theorem C18_tree_remove_any_height : forall fuel t T b node,
+  rep (heap t) (root t) T -> NoDup (bids T) -> (forall i, In i (bids T) -> 1 < i) -> In node (bids T) ->
+  bbh T = Some b -> sortedb (bkeys T) = true -> (2 * bheight T + 2 < fuel)%nat ->
+  let kn := key (heap t) node in
+  let t' := tree_remove_f fuel t node in
+  exists R b', rep (heap t') (root t') R /\
+    bred R = false /\ bbh R = Some b' /\ Z.of_nat (bheight R) <= 2 * (b' - 1) /\
+    sortedb (bkeys R) = true /\ (exists L Rr, bkeys T = L ++ kn :: Rr /\ bkeys R = L ++ Rr) /\
+    (forall k, lookup R k <> 0 <-> In k (bkeys R)) /\
+    (forall f', (bheight R < f')%nat ->
+       (forall k, get_loop f' (heap t') (root t') k = lookup R k) /\ inorder f' (heap t') (root t') = bflat R) /\
+    NoDup (bids R).
+Proof. exact tree_remove_any_height. Qed.
+Print Assumptions C18_tree_remove_any_height.
+
 (* ArenaBitSet::resize growing, as a whole (reallocation through the shared arena included): on kOk the old bits are kept, the
    new bits have the requested value, the invariant (capacity/64 words in a live arena block released as capacity/8 bytes,
    unused bits clear) and the arena invariant hold; on kOutOfMemory the bit set is untouched *)
@@ -676,5 +828,41 @@ Theorem C18_bitset_truncate : forall a b n, bs_inv a b -> 0 <= n ->
   forall j, 0 <= j < Z.min (b_size b) n -> bs_bit (bs_truncate b n) j = bs_bit b j.
 Proof. exact bs_truncate_sound. Qed.
 Print Assumptions C18_bitset_truncate.
+
+(* the RANGE operations fill(start, count) / clear(start, count) at the bit-set level: with the invariant bs_inv2 = bs_inv + "the
+   words that hold bits are 64-bit values" they change exactly the bits of the range, whatever the uninitialised words beyond
+   the size hold, and keep bs_inv2 *)
+Theorem C18_bitset_range_fill_clear : forall a b o start count, bs_inv2 a b -> 0 <= start -> 0 <= count -> start + count <= b_size b ->
+  let b' := bs_with_words b (bv_op 64 o (b_words b) start count) in
+  bs_inv2 a b' /\ b_size b' = b_size b /\
+  forall j, 0 <= j < b_size b -> bs_bit b' j = if in_range start count j then (match o with OpFill => true | OpClear => false end) else bs_bit b j.
+Proof. exact bs_range_op_sound. Qed.
+Print Assumptions C18_bitset_range_fill_clear.
+
+(* ... and every other operation keeps the words 64-bit: the empty set, resize (shrinking and growing, with reallocation), append,
+   set_bit, clear_all, fill_all *)
+Theorem C18_bitset_words_invariant :
+  winit bitset_empty /\
+  (forall mok a b new_size ideal v, bs_inv2 a b -> 0 <= new_size <= b_size b ->
+     let '(e, a', b') := bs_resize mok a b new_size ideal v in winit b') /\
+  (forall mok a b new_size ideal v, inv a -> bs_inv2 a b -> b_size b < new_size <= ideal -> ideal < 2 ^ 31 ->
+     let '(e, a', b') := bs_resize mok a b new_size ideal v in e = EOk -> winit b') /\
+  (forall mok a b v, inv a -> bs_inv2 a b -> b_cap b < 2 ^ 30 -> let '(e, a', b') := bs_append mok a b v in e = EOk -> winit b') /\
+  (forall a b i v, bs_inv2 a b -> 0 <= i < b_size b -> winit (bs_set_bit b i v)) /\
+  (forall a b, bs_inv a b -> winit (bs_clear_all b)) /\ (forall a b, bs_inv a b -> winit (bs_fill_all b)).
+Proof.
+  exact (conj winit_empty (conj winit_shrink (conj winit_resize_grow (conj winit_append (conj winit_set_bit (conj winit_clear_all winit_fill_all)))))).
+Qed.
+Print Assumptions C18_bitset_words_invariant.
+
+(* and_(other) / and_not(other) / or_(other): bit j of the result is the Boolean combination of bit j of this set and bit j of
+   the other one (false beyond the other's size); the size stays *)
+Theorem C18_bitset_binary_bits : forall a a' b o, bs_inv a b -> bs_inv a' o ->
+  (forall j, 0 <= j < b_size b -> bs_bit (bs_and b o) j = bs_bit b j && ((j <? b_size o) && bs_bit o j)) /\
+  (forall j, 0 <= j < b_size b -> bs_bit (bs_and_not b o) j = bs_bit b j && negb ((j <? b_size o) && bs_bit o j)) /\
+  (forall j, 0 <= j < b_size b -> bs_bit (bs_or b o) j = bs_bit b j || ((j <? b_size o) && bs_bit o j)) /\
+  b_size (bs_and b o) = b_size b /\ b_size (bs_and_not b o) = b_size b /\ b_size (bs_or b o) = b_size b.
+Proof. exact bs_binary_bits. Qed.
+Print Assumptions C18_bitset_binary_bits.
 
 
